@@ -11,6 +11,7 @@ executes against the real code.
 import OFV.Proofs.C10Det
 import OFV.Proofs.C10Sz
 import OFV.Proofs.C10SzOp
+import OFV.Proofs.C10Basis
 
 namespace OFV.C10
 open OFV.Model OFV.Model.C10 OFV.Spec OFV.Spec.C10
@@ -186,9 +187,24 @@ theorem build_term_op_sound (t : Term) (d : Det) (s : Nat) (hag : Agree d s)
 theorem iterate_basis_reference_first (ref : Det) (level : Nat) (spin : Bool) :
     (iterateBasis ref level spin).head? = some ref := iterateBasis_head ref level spin
 
+/-- `_iterate_basis_(ref, level, spin_preserving=False)` yields, each exactly once, the
+determinants of the reference's length with the reference's particle number that vacate at most
+`level` orbitals of the reference (`vacated ref d`: occupied in `ref`, empty in `d`). -/
+theorem iterate_basis_spec_nospin (ref : Det) (level : Nat) :
+    (iterateBasis ref level false).Nodup ∧ ∀ d, d ∈ iterateBasis ref level false ↔
+      d.length = ref.length ∧ countTrue d = countTrue ref ∧ (vacated ref d).length ≤ level := by
+  obtain ⟨h1, h2⟩ := iterateBasis_nospin ref level
+  refine ⟨h1, fun d => ?_⟩
+  rw [h2 d]
+  constructor
+  · rintro ⟨a, b, c⟩; exact ⟨a, (same_number_iff ref d a).mpr b, c⟩
+  · rintro ⟨a, b, c⟩; exact ⟨a, (same_number_iff ref d a).mp b, c⟩
+
 /-! ## non-vacuity -/
 
 example : jwNumberIndices 2 3 = [3, 5, 6] := by decide
+example : iterateBasis [true, false, false] 1 false = [[true, false, false], [false, true, false], [false, false, true]] := by
+  decide
 example : jwSzIndices (1 / 2) 4 (some 1) upIndex downIndex = .ok [8, 2] := by decide +kernel
 example : (configuration_state_index [0, 2] 3 (by decide) (by decide)).1 = (by decide : configIndex [0, 2] 3 < 2 ^ 3) := rfl
 example : configIndex [0, 2] 3 = 5 ∧ maskOfIndex 3 5 = 5 ∧ configIndex [0] 3 = 4 ∧ maskOfIndex 3 4 = 1 := by decide
